@@ -24,6 +24,12 @@ PROPS = {
     "C02": dict(world="record_world", level="exploration",
                 quick=dict(runs=40000, wall=240, chunk=500), thorough=dict(runs=1500000, wall=1500, chunk=4000),
                 assumptions=COMMON_ASSUME + ["time arguments closer than max(2e-6, 0.2*tol) to a tolerance/range boundary are not judged (counted as undecided)"]),
+    "C19": dict(world="encoder_world", level="exploration",
+                quick=dict(runs=20000, wall=240, chunk=500), thorough=dict(runs=800000, wall=1500, chunk=4000),
+                assumptions=COMMON_ASSUME + ["refractory periods are multiples of dt and frequency x refrac < 900 (documented constraint < 1000, kept with a margin)"]),
+    "C16": dict(world="hook_world", level="fault_enumeration",
+                quick=dict(runs=30000, wall=240, chunk=500), thorough=dict(runs=1200000, wall=1500, chunk=4000),
+                assumptions=COMMON_ASSUME + ["hook death is injected as del + gc.collect() of the last reference held by the harness"]),
     "C13": dict(world="record_world", level="exploration",
                 quick=dict(runs=40000, wall=240, chunk=500), thorough=dict(runs=1500000, wall=1500, chunk=4000),
                 assumptions=COMMON_ASSUME),
